@@ -1,3 +1,4 @@
+//go:build verif
 // +build verif
 
 package raft
@@ -305,11 +306,11 @@ func (s *simState) runFree(limit int, stop func() bool) error {
 }
 
 type expandReq struct {
-	ID      int         `json:"id"`
-	Hist    []simEvent  `json:"hist"`
-	Hash    string      `json:"hash"` // expected hash of the state reached by Hist ("" = unknown)
-	Dev     int         `json:"dev"`
-	Replay  bool        `json:"replay,omitempty"` // only replay and report
+	ID     int        `json:"id"`
+	Hist   []simEvent `json:"hist"`
+	Hash   string     `json:"hash"` // expected hash of the state reached by Hist ("" = unknown)
+	Dev    int        `json:"dev"`
+	Replay bool       `json:"replay,omitempty"` // only replay and report
 }
 
 // chainRec is one further state reached by following the only enabled event
@@ -324,27 +325,27 @@ type chainRec struct {
 
 type succRec struct {
 	Chain []chainRec     `json:"chain,omitempty"`
-	Ev   simEvent       `json:"ev"`
-	Hash string         `json:"hash"`
-	Dev  int            `json:"dev"`
-	Viol []simViolation `json:"viol,omitempty"`
-	Err  string         `json:"err,omitempty"`
-	NEn  int            `json:"nen"`
+	Ev    simEvent       `json:"ev"`
+	Hash  string         `json:"hash"`
+	Dev   int            `json:"dev"`
+	Viol  []simViolation `json:"viol,omitempty"`
+	Err   string         `json:"err,omitempty"`
+	NEn   int            `json:"nen"`
 }
 
 type expandResp struct {
-	ID       int            `json:"id"`
-	Hash     string         `json:"hash"`
-	Mismatch bool           `json:"mismatch,omitempty"`
-	Succ     []succRec      `json:"succ"`
-	Viol     []simViolation `json:"viol,omitempty"` // violations in the state itself (seed)
-	Err      string         `json:"err,omitempty"`
-	Stats    map[string]int `json:"stats,omitempty"`
-	Canon    string         `json:"canon,omitempty"`
-	Final    []simViolation `json:"final,omitempty"`
-	CrashImages int         `json:"crashImages,omitempty"` // "died at storage point k" successors computed
-	OrderSteps int          `json:"orderSteps,omitempty"` // transitions repeated because they may depend on map iteration order
-	OrderAlts  int          `json:"orderAlts,omitempty"`  // additional outcomes found that way
+	ID          int            `json:"id"`
+	Hash        string         `json:"hash"`
+	Mismatch    bool           `json:"mismatch,omitempty"`
+	Succ        []succRec      `json:"succ"`
+	Viol        []simViolation `json:"viol,omitempty"` // violations in the state itself (seed)
+	Err         string         `json:"err,omitempty"`
+	Stats       map[string]int `json:"stats,omitempty"`
+	Canon       string         `json:"canon,omitempty"`
+	Final       []simViolation `json:"final,omitempty"`
+	CrashImages int            `json:"crashImages,omitempty"` // "died at storage point k" successors computed
+	OrderSteps  int            `json:"orderSteps,omitempty"`  // transitions repeated because they may depend on map iteration order
+	OrderAlts   int            `json:"orderAlts,omitempty"`   // additional outcomes found that way
 }
 
 func replayHist(sc *simScenario, hist []simEvent) (*simState, error) {
